@@ -178,7 +178,7 @@ func genC20Mbits(g *G) {
 				}
 			}
 			ops = append(ops, "mb "+c20Hex(d))
-			if len(ops) > 64 {
+			if len(ops) > 6 { // short cases, so that a shrunk witness comes from the small scope
 				flush()
 			}
 		}
@@ -500,6 +500,12 @@ func genC20Natcmp(g *G) {
 	}
 	ops = append(ops, "matrix")
 	g.Case(ops)
+	// single triples from the same small scope (one op per case: these give the smallest witnesses)
+	small := c20StrsUpTo(alpha, 3)
+	for i := g.Scale(400, 4000); i > 0; i-- {
+		a, b, c := small[g.Intn(len(small))], small[g.Intn(len(small))], small[g.Intn(len(small))]
+		g.Case([]string{"reset", fmt.Sprintf("cn3 %s %s %s", c20Hex(a), c20Hex(b), c20Hex(c))})
+	}
 	// a second, different alphabet in the thorough tier: two letters and two digits around a leading zero
 	if g.Thorough() {
 		alpha = []byte("05:b")
